@@ -177,6 +177,15 @@ func TestVerifC12(t *testing.T) {
 					idx = append(idx, n)
 				}
 			}
+			if span < 1030 {
+				// numbers around powers of two: the first places where a truncating or single-precision conversion of the media time
+				// to milliseconds goes wrong for timescales that 1000 does not divide
+				for k := uint(6); k <= 10; k++ {
+					for j := int64(-1); j <= 2; j++ {
+						idx = append(idx, int64(1)<<k+j)
+					}
+				}
+			}
 			caseNo++
 			if !r.Begin(caseNo, fmt.Sprintf("%s %q", w.Ref.Path, cfgURL)) {
 				continue
